@@ -74,6 +74,14 @@ def run(chk):
     lines += gen_poly.make_boxpair_cases(chk.seed * 1000 + 1900, 150 if chk.quick else 3000,
                                          ["poly_hull_assign", "poly_difference_assign", "intersection_assign", "simplify_using_context_assign",
                                           "time_elapse_assign", "positive_time_elapse_assign"])
+    # binary operators whose ARGUMENT (and receiver) hold pending rows: minimized, then one more generator / constraint,
+    # with nothing in between that would integrate it
+    BIN = ["time_elapse_assign", "poly_hull_assign", "intersection_assign", "poly_difference_assign", "concatenate_assign",
+           "simplify_using_context_assign", "poly_hull_assign_if_exact", "positive_time_elapse_assign", "add_generators_from"]
+    nb = 45 if chk.quick else 500
+    for i, op in enumerate(BIN):
+        lines += gen_poly.make_cases(chk.seed * 1000 + 2300 + i, nb, maxdim=maxdim, nobj=2, steps=2, ops=[op], pq=0.0, pobs=0.0, start=200000 + i * nb,
+                                     special=0.9, special_kinds=["pending_gens", "pending_gens", "pending_cons"])
     # the predicate-valued variant has the most intricate case analysis (pointed / non-pointed, C / NNC): its own stream
     lines += gen_poly.make_boxpair_cases(chk.seed * 1000 + 2100, 700 if chk.quick else 8000, ["poly_hull_assign_if_exact"], start=100000)
     lines += gen_poly.make_cases(chk.seed * 7919 + 17, ncase - cid if ncase > cid else 50, maxdim=maxdim, nobj=3, steps=6, pq=0.1, pobs=0.2, start=cid)
